@@ -1,17 +1,1703 @@
-//! C16 — correspondence driver (stub: not built yet).
+//! C16 — fallible APIs are total.  See lean/Driver/C16.lean for the protocol.
+//!
+//! Tensor views are composed at run time through `Box<dyn TensorMut<u64, D>>` (one enum arm per
+//! dimensionality), matrix views through `Box<dyn MatrixMut<u64>>`; both are implementations of
+//! the library's own reference traits, so every adaptor can be the receiver of the checked
+//! getters.  Leaves hold ids (`1000·leaf + flat offset`), so the element a getter resolves to is
+//! observable.  Huge shapes are only ever *claimed* (with small or empty data).
 
 use crate::util::*;
+use crate::with_d;
+use easy_ml::differentiation::{Record, RecordMatrix, RecordTensor, WengertList};
+use easy_ml::interop::{MatrixRefTensor, TensorRefMatrix};
+use easy_ml::matrices::views::{
+    IndexRange, MatrixMut, MatrixPart, MatrixRange, MatrixRef, MatrixReverse, MatrixView, Reverse,
+};
+use easy_ml::matrices::Matrix;
+use easy_ml::tensors::indexing::{TensorAccess, TensorTranspose};
+use easy_ml::tensors::views::{
+    IndexRangeValidationError, StrictIndexRangeValidationError, TensorChain, TensorExpansion,
+    TensorIndex, TensorMask, TensorMut, TensorRange, TensorRef, TensorRename, TensorReverse,
+    TensorStack, TensorView,
+};
+use easy_ml::tensors::{Dimension, InvalidShapeError, Tensor};
 
-pub fn gen(_g: &mut Gen) {}
+pub type Dyn<const D: usize> = Box<dyn TensorMut<u64, D>>;
+pub type MDyn = Box<dyn MatrixMut<u64>>;
 
-pub struct Runner;
+pub enum TV {
+    D0(Dyn<0>),
+    D1(Dyn<1>),
+    D2(Dyn<2>),
+    D3(Dyn<3>),
+    D4(Dyn<4>),
+    D5(Dyn<5>),
+    D6(Dyn<6>),
+}
+
+pub trait IntoTV {
+    fn into_tv(self) -> TV;
+}
+macro_rules! into_tv_impl {
+    ($($d:literal $arm:ident),*) => {
+        $(impl IntoTV for Dyn<$d> { fn into_tv(self) -> TV { TV::$arm(self) } })*
+    };
+}
+into_tv_impl!(0 D0, 1 D1, 2 D2, 3 D3, 4 D4, 5 D5, 6 D6);
+
+/// `with_tv!(tv, D, v => body)`: run `body` with `v: Dyn<D>` and `const D`.
+macro_rules! with_tv {
+    ($tv:expr, $D:ident, $v:ident => $body:expr) => {
+        match $tv {
+            TV::D0($v) => { const $D: usize = 0; $body }
+            TV::D1($v) => { const $D: usize = 1; $body }
+            TV::D2($v) => { const $D: usize = 2; $body }
+            TV::D3($v) => { const $D: usize = 3; $body }
+            TV::D4($v) => { const $D: usize = 4; $body }
+            TV::D5($v) => { const $D: usize = 5; $body }
+            TV::D6($v) => { const $D: usize = 6; $body }
+        }
+    };
+}
+
+fn tv_shape(tv: &TV) -> Vec<(&'static str, usize)> {
+    with_tv!(tv, D, v => v.view_shape().to_vec())
+}
+
+fn boxed<S: TensorMut<u64, D> + 'static, const D: usize>(s: S) -> Dyn<D> {
+    Box::new(s)
+}
+
+fn ids(n: usize, base: u64) -> Vec<u64> {
+    (0..n as u64).map(|i| base + i).collect()
+}
+
+fn leaf_tensor<const D: usize>(shape: &[(&'static str, usize)], base: u64) -> Tensor<u64, D> {
+    let n: usize = shape.iter().map(|d| d.1).product();
+    Tensor::from(shape_array::<D>(shape), ids(n, base))
+}
+
+fn show_opt(v: Option<u64>) -> String {
+    match v {
+        Some(x) => format!("some({})", x),
+        None => "none".into(),
+    }
+}
+
+fn parse_range(s: &str) -> (usize, usize) {
+    let (a, b) = s.split_once(':').expect("start:len");
+    (a.parse().expect("start"), b.parse().expect("len"))
+}
+
+fn parse_named_ranges(s: &str) -> Vec<(&'static str, (usize, usize))> {
+    split_comma(s)
+        .iter()
+        .map(|p| {
+            let mut it = p.split(':');
+            let n = intern(it.next().unwrap());
+            let a = it.next().unwrap().parse().unwrap();
+            let b = it.next().unwrap().parse().unwrap();
+            (n, (a, b))
+        })
+        .collect()
+}
+
+fn parse_all_ranges(s: &str) -> Vec<Option<(usize, usize)>> {
+    split_comma(s).iter().map(|p| if *p == "*" { None } else { Some(parse_range(p)) }).collect()
+}
+
+fn show_all_ranges(v: &[Option<(usize, usize)>]) -> String {
+    if v.is_empty() {
+        return "-".into();
+    }
+    v.iter()
+        .map(|o| match o {
+            None => "*".to_string(),
+            Some((a, b)) => format!("{}:{}", a, b),
+        })
+        .collect::<Vec<_>>()
+        .join(",")
+}
+
+// ---------------------------------------------------------------------------------------------
+// TensorRange / TensorMask construction
+// ---------------------------------------------------------------------------------------------
+
+fn show_irv_error<const D: usize, const P: usize>(e: &IndexRangeValidationError<D, P>) -> String {
+    match e {
+        IndexRangeValidationError::InvalidShape(s) => {
+            format!("err invalid_shape {}", show_shape(&s.shape()))
+        }
+        IndexRangeValidationError::InvalidDimensions(d) => format!(
+            "err invalid_dimensions provided={} valid={}",
+            show_names(&d.provided_names()),
+            show_names(&d.valid_names())
+        ),
+    }
+}
+
+fn show_strict_error<const D: usize, const P: usize>(
+    e: &StrictIndexRangeValidationError<D, P>,
+    given: &[Option<(usize, usize)>],
+) -> String {
+    match e {
+        StrictIndexRangeValidationError::OutsideShape { shape, index_range } => {
+            // IndexRange's fields are private: compare the payload with the ranges as given
+            let expected: Vec<Option<IndexRange>> =
+                given.iter().map(|o| o.map(|(a, b)| IndexRange::new(a, b))).collect();
+            let same = index_range.len() == expected.len()
+                && index_range.iter().zip(expected.iter()).all(|(a, b)| a == b);
+            if same {
+                format!("err outside_shape shape={} ranges={}", show_shape(shape), show_all_ranges(given))
+            } else {
+                format!("err outside_shape shape={} ranges=UNEXPECTED{:?}", show_shape(shape), index_range)
+            }
+        }
+        StrictIndexRangeValidationError::Error(e) => show_irv_error(e),
+    }
+}
+
+/// the `[Option<IndexRange>; D]` a named list scatters to (what `from_strict` reports)
+fn scatter<const D: usize>(
+    shape: &[(&'static str, usize); D],
+    named: &[(&'static str, (usize, usize))],
+) -> Vec<Option<(usize, usize)>> {
+    let mut all = vec![None; D];
+    for (n, r) in named {
+        if let Some(d) = shape.iter().position(|s| s.0 == *n) {
+            all[d] = Some(*r);
+        }
+    }
+    all
+}
+
+macro_rules! named_array {
+    ($named:expr, $P:ident, $conv:expr) => {{
+        let a: [(Dimension, _); $P] = std::array::from_fn(|i| ($named[i].0, $conv($named[i].1)));
+        a
+    }};
+}
+
+fn conv_ir(r: (usize, usize)) -> IndexRange {
+    IndexRange::new(r.0, r.1)
+}
+fn conv_tuple(r: (usize, usize)) -> (usize, usize) {
+    r
+}
+fn conv_array(r: (usize, usize)) -> [usize; 2] {
+    [r.0, r.1]
+}
+fn conv_range(r: (usize, usize)) -> std::ops::Range<usize> {
+    r.0..(r.0 + r.1)
+}
+
+/// Applies a named range/mask constructor to `v`.  The constructors consume their source even
+/// when they fail, so the attempt is made on a reference first.
+fn apply_named<const D: usize, const P: usize>(
+    v: Dyn<D>,
+    mask: bool,
+    strict: bool,
+    named: &[(&'static str, (usize, usize))],
+    via: &str,
+) -> (Option<Dyn<D>>, String) {
+    macro_rules! go {
+        ($conv:expr) => {{
+            let shape = v.view_shape();
+            let first: Result<(), String> = match (mask, strict) {
+                (false, false) => TensorRange::from(&v, named_array!(named, P, $conv))
+                    .map(|_| ())
+                    .map_err(|e| show_irv_error(&e)),
+                (false, true) => TensorRange::from_strict(&v, named_array!(named, P, $conv))
+                    .map(|_| ())
+                    .map_err(|e| show_strict_error(&e, &scatter(&shape, named))),
+                (true, false) => TensorMask::from(&v, named_array!(named, P, $conv))
+                    .map(|_| ())
+                    .map_err(|e| show_irv_error(&e)),
+                (true, true) => TensorMask::from_strict(&v, named_array!(named, P, $conv))
+                    .map(|_| ())
+                    .map_err(|e| show_strict_error(&e, &scatter(&shape, named))),
+            };
+            match first {
+                Err(e) => (Some(v), e),
+                Ok(()) => {
+                    let w: Dyn<D> = match (mask, strict) {
+                        (false, false) => boxed(TensorRange::from(v, named_array!(named, P, $conv)).ok().unwrap()),
+                        (false, true) => boxed(TensorRange::from_strict(v, named_array!(named, P, $conv)).ok().unwrap()),
+                        (true, false) => boxed(TensorMask::from(v, named_array!(named, P, $conv)).ok().unwrap()),
+                        (true, true) => boxed(TensorMask::from_strict(v, named_array!(named, P, $conv)).ok().unwrap()),
+                    };
+                    let s = format!("ok shape={}", show_shape(&w.view_shape()));
+                    (Some(w), s)
+                }
+            }
+        }};
+    }
+    match via {
+        "tuple" => go!(conv_tuple),
+        "array" => go!(conv_array),
+        "range" => go!(conv_range),
+        _ => go!(conv_ir),
+    }
+}
+
+fn apply_all<const D: usize>(
+    v: Dyn<D>,
+    mask: bool,
+    strict: bool,
+    all: &[Option<(usize, usize)>],
+    via: &str,
+) -> (Option<Dyn<D>>, String) {
+    macro_rules! arr {
+        ($conv:expr) => {{
+            let a: [Option<_>; D] = std::array::from_fn(|i| all[i].map($conv));
+            a
+        }};
+    }
+    macro_rules! go {
+        ($conv:expr) => {{
+            let first: Result<(), String> = match (mask, strict) {
+                (false, false) => TensorRange::from_all(&v, arr!($conv))
+                    .map(|_| ())
+                    .map_err(|e| format!("err invalid_shape {}", show_shape(&e.shape()))),
+                (false, true) => TensorRange::from_all_strict(&v, arr!($conv))
+                    .map(|_| ())
+                    .map_err(|e| show_strict_error(&e, all)),
+                (true, false) => TensorMask::from_all(&v, arr!($conv))
+                    .map(|_| ())
+                    .map_err(|e| format!("err invalid_shape {}", show_shape(&e.shape()))),
+                (true, true) => TensorMask::from_all_strict(&v, arr!($conv))
+                    .map(|_| ())
+                    .map_err(|e| show_strict_error(&e, all)),
+            };
+            match first {
+                Err(e) => (Some(v), e),
+                Ok(()) => {
+                    let w: Dyn<D> = match (mask, strict) {
+                        (false, false) => boxed(TensorRange::from_all(v, arr!($conv)).ok().unwrap()),
+                        (false, true) => boxed(TensorRange::from_all_strict(v, arr!($conv)).ok().unwrap()),
+                        (true, false) => boxed(TensorMask::from_all(v, arr!($conv)).ok().unwrap()),
+                        (true, true) => boxed(TensorMask::from_all_strict(v, arr!($conv)).ok().unwrap()),
+                    };
+                    let s = format!("ok shape={}", show_shape(&w.view_shape()));
+                    (Some(w), s)
+                }
+            }
+        }};
+    }
+    match via {
+        "tuple" => go!(conv_tuple),
+        "array" => go!(conv_array),
+        "range" => go!(conv_range),
+        _ => go!(conv_ir),
+    }
+}
+
+macro_rules! with_p {
+    ($p:expr, $P:ident => $body:expr) => {
+        match $p {
+            0 => { const $P: usize = 0; $body }
+            1 => { const $P: usize = 1; $body }
+            2 => { const $P: usize = 2; $body }
+            3 => { const $P: usize = 3; $body }
+            4 => { const $P: usize = 4; $body }
+            5 => { const $P: usize = 5; $body }
+            6 => { const $P: usize = 6; $body }
+            other => panic!("unsupported number of named ranges {}", other),
+        }
+    };
+}
+
+// ---------------------------------------------------------------------------------------------
+// the runner
+// ---------------------------------------------------------------------------------------------
+
+pub struct Runner {
+    tview: Option<TV>,
+    mview: Option<MDyn>,
+    parts: Vec<Option<MatrixView<u64, MatrixPart<'static, u64>>>>,
+}
+
+fn answer<T>(r: Result<T, PanicKind>, f: impl FnOnce(T) -> String) -> String {
+    match r {
+        Ok(v) => f(v),
+        Err(k) => panic_str(k),
+    }
+}
 
 impl Runner {
     pub fn new() -> Runner {
-        Runner
+        Runner { tview: None, mview: None, parts: vec![] }
     }
 
-    pub fn step(&mut self, _toks: &[&str]) -> String {
-        "unimplemented".into()
+    fn reset(&mut self) {
+        self.tview = None;
+        self.mview = None;
+        self.parts.clear();
     }
+
+    pub fn step(&mut self, toks: &[&str]) -> String {
+        if toks.is_empty() {
+            return "bad-op".into();
+        }
+        if toks[0] == "@" {
+            self.reset();
+            return self.start(&toks[1..]);
+        }
+        let via = opt_arg("via", toks).unwrap_or("");
+        match toks[0] {
+            "get" => self.get(toks[1], via),
+            "mget" => self.mget(toks[1], toks[2], via),
+            "part" => {
+                let k: usize = toks[1].parse().unwrap();
+                match self.parts.get_mut(k).and_then(|p| p.take()) {
+                    Some(view) => {
+                        let part: MatrixPart<'static, u64> = view.source();
+                        let s = format!("ok size={}x{}", part.view_rows(), part.view_columns());
+                        self.mview = Some(Box::new(part));
+                        s
+                    }
+                    None => "no-part".into(),
+                }
+            }
+            "mrange" | "mreverse" | "mmap" | "tmatrix" => self.matrix_adaptor(toks, via),
+            "mtensor" => match self.tview.take() {
+                Some(TV::D2(v)) => {
+                    let r = catch(move || {
+                        let m: MDyn = Box::new(MatrixRefTensor::from(v));
+                        m
+                    });
+                    answer(r, |m| {
+                        let s = format!("ok size={}x{}", m.view_rows(), m.view_columns());
+                        self.mview = Some(m);
+                        s
+                    })
+                }
+                Some(other) => {
+                    self.tview = Some(other);
+                    "bad-op".into()
+                }
+                None => "no-view".into(),
+            },
+            _ => self.tensor_adaptor(toks, via),
+        }
+    }
+
+    fn start(&mut self, toks: &[&str]) -> String {
+        let via = opt_arg("via", toks).unwrap_or("");
+        match toks[0] {
+            "try_from" => {
+                let shape = parse_shape(toks[1]);
+                let n: usize = toks[2].parse().unwrap();
+                with_d!(shape.len(), D => {
+                    let r = catch(|| Tensor::<u64, D>::try_from(shape_array::<D>(&shape), ids(n, 0)));
+                    answer(r, |res| match res {
+                        Ok(t) => {
+                            self.tview = Some(boxed::<_, D>(t).into_tv());
+                            "ok".into()
+                        }
+                        Err(e) => format!("err {}", show_shape(&e.shape())),
+                    })
+                })
+            }
+            "is_valid" => {
+                let shape = parse_shape(toks[1]);
+                with_d!(shape.len(), D => {
+                    answer(catch(|| InvalidShapeError::new(shape_array::<D>(&shape)).is_valid()), |b| b.to_string())
+                })
+            }
+            "try_into_scalar" => {
+                let (r, c): (usize, usize) = (toks[1].parse().unwrap(), toks[2].parse().unwrap());
+                let m = Matrix::from_flat_row_major((r, c), ids(r * c, 0));
+                answer(catch(move || m.try_into_scalar()), |res| match res {
+                    Ok(x) => format!("ok({})", x),
+                    Err(_) => "err".into(),
+                })
+            }
+            "into_tensor" => {
+                let (r, c): (usize, usize) = (toks[1].parse().unwrap(), toks[2].parse().unwrap());
+                let (n1, n2) = (intern(toks[3]), intern(toks[4]));
+                let m = Matrix::from_flat_row_major((r, c), ids(r * c, 0));
+                let res = catch(move || match via {
+                    "try_from" => <Tensor<u64, 2> as TryFrom<(Matrix<u64>, [Dimension; 2])>>::try_from((m, [n1, n2])),
+                    "try_into" => {
+                        let t: Result<Tensor<u64, 2>, InvalidShapeError<2>> = (m, [n1, n2]).try_into();
+                        t
+                    }
+                    _ => m.into_tensor(n1, n2),
+                });
+                answer(res, |res| match res {
+                    Ok(t) => {
+                        let s = format!("ok shape={}", show_shape(&t.shape()));
+                        self.tview = Some(TV::D2(Box::new(t)));
+                        s
+                    }
+                    Err(e) => format!("err {}", show_shape(&e.shape())),
+                })
+            }
+            "linalg" => linalg(toks[1], toks[2].parse().unwrap(), toks[3].parse().unwrap(), toks[4] == "1", via),
+            "record" => {
+                let shape = parse_shape(toks[2]);
+                record(toks[1], &shape, &[split_comma(toks[3])])
+            }
+            "records" => {
+                let shape = parse_shape(toks[2]);
+                let lists: Vec<Vec<&str>> = toks[3].split('|').map(split_comma).collect();
+                record(toks[1], &shape, &lists)
+            }
+            "tensor" => {
+                let shape = parse_shape(toks[1]);
+                with_d!(shape.len(), D => {
+                    self.tview = Some(boxed::<_, D>(leaf_tensor::<D>(&shape, 0)).into_tv());
+                });
+                "ok".into()
+            }
+            "stack" => {
+                let shape = parse_shape(toks[1]);
+                let n: usize = toks[2].parse().unwrap();
+                let (pos, name) = toks[3].split_once(':').unwrap();
+                let along: (usize, Dimension) = (pos.parse().unwrap(), intern(name));
+                let r = catch(|| stack(&shape, n, along, via));
+                answer(r, |tv| {
+                    let s = format!("ok shape={}", show_shape(&tv_shape(&tv)));
+                    self.tview = Some(tv);
+                    s
+                })
+            }
+            "chain" => {
+                let shapes: Vec<Vec<(&'static str, usize)>> = toks[1].split('|').map(parse_shape).collect();
+                let along = intern(toks[2]);
+                let r = catch(|| chain(&shapes, along, via));
+                answer(r, |tv| {
+                    let s = format!("ok shape={}", show_shape(&tv_shape(&tv)));
+                    self.tview = Some(tv);
+                    s
+                })
+            }
+            "matrix" => {
+                let (r, c): (usize, usize) = (toks[1].parse().unwrap(), toks[2].parse().unwrap());
+                self.mview = Some(Box::new(Matrix::from_flat_row_major((r, c), ids(r * c, 0))));
+                "ok".into()
+            }
+            "partition" => {
+                let (r, c): (usize, usize) = (toks[1].parse().unwrap(), toks[2].parse().unwrap());
+                let rp = parse_usizes(toks[3]);
+                let cp = parse_usizes(toks[4]);
+                // the parts borrow the matrix mutably for as long as they live: leak it
+                let m: &'static mut Matrix<u64> =
+                    Box::leak(Box::new(Matrix::from_flat_row_major((r, c), ids(r * c, 0))));
+                let res = catch(move || match via {
+                    "quadrants" if rp.len() == 1 && cp.len() == 1 => {
+                        let q = m.partition_quadrants(rp[0], cp[0]);
+                        vec![q.top_left, q.top_right, q.bottom_left, q.bottom_right]
+                    }
+                    _ => m.partition(&rp, &cp),
+                });
+                answer(res, |parts| {
+                    let s = parts
+                        .iter()
+                        .map(|p| format!("{}x{}", p.rows(), p.columns()))
+                        .collect::<Vec<_>>()
+                        .join(";");
+                    self.parts = parts.into_iter().map(Some).collect();
+                    format!("ok sizes={}", s)
+                })
+            }
+            _ => "bad-op".into(),
+        }
+    }
+
+    fn get(&mut self, idx_s: &str, via: &str) -> String {
+        let idx = parse_usizes(idx_s);
+        match self.tview.as_mut() {
+            None => "no-view".into(),
+            Some(tv) => with_tv!(tv, D, v => {
+                let i: [usize; D] = to_array(&idx);
+                let r = catch(|| match via {
+                    "mut" => v.get_reference_mut(i).map(|x| *x),
+                    "access" => TensorAccess::from_source_order(&*v).try_get_reference(i).copied(),
+                    "access_mut" => TensorAccess::from_source_order(&mut *v).try_get_reference_mut(i).map(|x| *x),
+                    "view" => TensorView::from(&*v).index().try_get_reference(i).copied(),
+                    _ => v.get_reference(i).copied(),
+                });
+                answer(r, show_opt)
+            }),
+        }
+    }
+
+    fn mget(&mut self, r_s: &str, c_s: &str, via: &str) -> String {
+        let (r, c): (usize, usize) = (r_s.parse().unwrap(), c_s.parse().unwrap());
+        match self.mview.as_mut() {
+            None => "no-view".into(),
+            Some(m) => {
+                let res = catch(|| match via {
+                    "mut" => m.try_get_reference_mut(r, c).map(|x| *x),
+                    "view" => MatrixView::from(&*m).try_get_reference(r, c).copied(),
+                    "view_mut" => MatrixView::from(&mut *m).try_get_reference_mut(r, c).map(|x| *x),
+                    _ => m.try_get_reference(r, c).copied(),
+                });
+                answer(res, show_opt)
+            }
+        }
+    }
+
+    fn matrix_adaptor(&mut self, toks: &[&str], via: &str) -> String {
+        let m = match self.mview.take() {
+            None => return "no-view".into(),
+            Some(m) => m,
+        };
+        match toks[0] {
+            "mrange" => {
+                let rows = parse_range(toks[1]);
+                let cols = parse_range(toks[2]);
+                // MatrixRange::from consumes the source; a panic inside loses the view
+                let res = catch(move || {
+                    let w: MDyn = match via {
+                        "tuple" => Box::new(MatrixRange::from(m, rows, cols)),
+                        "array" => Box::new(MatrixRange::from(m, conv_array(rows), conv_array(cols))),
+                        "range" => Box::new(MatrixRange::from(m, conv_range(rows), conv_range(cols))),
+                        "view" => Box::new(MatrixView::from(m).range_owned(conv_ir(rows), conv_ir(cols)).source()),
+                        _ => Box::new(MatrixRange::from(m, conv_ir(rows), conv_ir(cols))),
+                    };
+                    w
+                });
+                answer(res, |w| {
+                    let s = format!("ok size={}x{}", w.view_rows(), w.view_columns());
+                    self.mview = Some(w);
+                    s
+                })
+            }
+            "mreverse" => {
+                let reverse = Reverse { rows: toks[1] == "1", columns: toks[2] == "1" };
+                let w: MDyn = match via {
+                    "view" => Box::new(MatrixView::from(m).reverse_owned(reverse).source()),
+                    _ => Box::new(MatrixReverse::from(m, reverse)),
+                };
+                let s = format!("ok size={}x{}", w.view_rows(), w.view_columns());
+                self.mview = Some(w);
+                s
+            }
+            "tmatrix" => {
+                let (n1, n2) = (intern(toks[1]), intern(toks[2]));
+                let first: Result<Result<(), String>, PanicKind> = catch(|| {
+                    let r = if via == "from" {
+                        TensorRefMatrix::from(&m).map(|_| ())
+                    } else {
+                        TensorRefMatrix::with_names(&m, [n1, n2]).map(|_| ())
+                    };
+                    r.map_err(|e| format!("err {}", show_shape(&e.shape())))
+                });
+                match first {
+                    Err(k) => {
+                        self.mview = Some(m);
+                        panic_str(k)
+                    }
+                    Ok(Err(e)) => {
+                        self.mview = Some(m);
+                        e
+                    }
+                    Ok(Ok(())) => {
+                        let t: Dyn<2> = if via == "from" {
+                            Box::new(TensorRefMatrix::from(m).ok().unwrap())
+                        } else {
+                            Box::new(TensorRefMatrix::with_names(m, [n1, n2]).ok().unwrap())
+                        };
+                        let s = format!("ok shape={}", show_shape(&t.view_shape()));
+                        self.tview = Some(TV::D2(t));
+                        s
+                    }
+                }
+            }
+            _ => {
+                self.mview = Some(m);
+                "bad-op".into()
+            }
+        }
+    }
+
+    fn tensor_adaptor(&mut self, toks: &[&str], via: &str) -> String {
+        let tv = match self.tview.take() {
+            None => return "no-view".into(),
+            Some(tv) => tv,
+        };
+        let (new_tv, ans): (Option<TV>, String) = match toks[0] {
+            "access" | "transpose" => {
+                let names = parse_names(toks[1]);
+                with_tv!(tv, D, v => {
+                    let dims: [Dimension; D] = names_array(&names);
+                    let first = catch(|| {
+                        let r = if toks[0] == "access" {
+                            TensorAccess::try_from(&v, dims).map(|a| a.shape())
+                        } else {
+                            TensorTranspose::try_from(&v, dims).map(|t| t.shape())
+                        };
+                        r.map_err(|e| format!(
+                            "err actual={} requested={}", show_shape(&e.actual), show_names(&e.requested)))
+                    });
+                    match first {
+                        Err(k) => (Some(v.into_tv()), panic_str(k)),
+                        Ok(Err(e)) => (Some(v.into_tv()), e),
+                        Ok(Ok(shape)) => {
+                            let w: Dyn<D> = if toks[0] == "access" {
+                                boxed(TensorAccess::try_from(v, dims).ok().unwrap())
+                            } else {
+                                boxed(TensorTranspose::try_from(v, dims).ok().unwrap())
+                            };
+                            (Some(w.into_tv()), format!("ok shape={}", show_shape(&shape)))
+                        }
+                    }
+                })
+            }
+            "range" | "mask" => {
+                let mask = toks[0] == "mask";
+                let mode = toks[1];
+                let strict = mode.ends_with("strict");
+                if mode.starts_with("from_all") {
+                    let all = parse_all_ranges(toks[2]);
+                    with_tv!(tv, D, v => {
+                        let mut out = None;
+                        let r = catch(|| apply_all::<D>(v, mask, strict, &all, via));
+                        match r {
+                            Ok((w, s)) => { out = w; (out.map(|w| w.into_tv()), s) }
+                            Err(k) => (None, panic_str(k)),
+                        }
+                    })
+                } else {
+                    let named = parse_named_ranges(toks[2]);
+                    with_tv!(tv, D, v => {
+                        with_p!(named.len(), P => {
+                            let r = catch(|| apply_named::<D, P>(v, mask, strict, &named, via));
+                            match r {
+                                Ok((w, s)) => (w.map(|w| w.into_tv()), s),
+                                Err(k) => (None, panic_str(k)),
+                            }
+                        })
+                    })
+                }
+            }
+            "reverse" => {
+                let names = parse_names(toks[1]);
+                with_tv!(tv, D, v => {
+                    let w: Dyn<D> = boxed(TensorReverse::from(v, &names));
+                    let s = format!("ok shape={}", show_shape(&w.view_shape()));
+                    (Some(w.into_tv()), s)
+                })
+            }
+            "rename" => {
+                let names = parse_names(toks[1]);
+                with_tv!(tv, D, v => {
+                    let w: Dyn<D> = boxed(TensorRename::from(v, names_array::<D>(&names)));
+                    let s = format!("ok shape={}", show_shape(&w.view_shape()));
+                    (Some(w.into_tv()), s)
+                })
+            }
+            "index" => {
+                let provided = parse_shape(toks[1]);
+                let w = index(tv, &provided);
+                let s = format!("ok shape={}", show_shape(&tv_shape(&w)));
+                (Some(w), s)
+            }
+            "expand" => {
+                let extra: Vec<(usize, Dimension)> = split_comma(toks[1])
+                    .iter()
+                    .map(|p| {
+                        let (a, n) = p.split_once(':').unwrap();
+                        (a.parse().unwrap(), intern(n))
+                    })
+                    .collect();
+                let w = expand(tv, &extra);
+                let s = format!("ok shape={}", show_shape(&tv_shape(&w)));
+                (Some(w), s)
+            }
+            _ => (Some(tv), "bad-op".into()),
+        };
+        self.tview = new_tv;
+        ans
+    }
+}
+
+fn index(tv: TV, provided: &[(&'static str, usize)]) -> TV {
+    macro_rules! arm {
+        ($v:expr, $d:literal, $i:literal) => {{
+            let p: [(Dimension, usize); $i] = shape_array(provided);
+            let w: Dyn<{ $d - $i }> = Box::new(TensorIndex::<u64, Dyn<$d>, $d, $i>::from($v, p));
+            w.into_tv()
+        }};
+    }
+    match (tv, provided.len()) {
+        (TV::D1(v), 1) => arm!(v, 1, 1),
+        (TV::D2(v), 1) => arm!(v, 2, 1),
+        (TV::D2(v), 2) => arm!(v, 2, 2),
+        (TV::D3(v), 1) => arm!(v, 3, 1),
+        (TV::D3(v), 2) => arm!(v, 3, 2),
+        (TV::D3(v), 3) => arm!(v, 3, 3),
+        (TV::D4(v), 1) => arm!(v, 4, 1),
+        (TV::D4(v), 2) => arm!(v, 4, 2),
+        (TV::D5(v), 1) => arm!(v, 5, 1),
+        (TV::D6(v), 1) => arm!(v, 6, 1),
+        _ => panic!("unsupported TensorIndex arity"),
+    }
+}
+
+fn expand(tv: TV, extra: &[(usize, Dimension)]) -> TV {
+    macro_rules! arm {
+        ($v:expr, $d:literal, $i:literal) => {{
+            let e: [(usize, Dimension); $i] = std::array::from_fn(|k| extra[k]);
+            let w: Dyn<{ $d + $i }> = Box::new(TensorExpansion::<u64, Dyn<$d>, $d, $i>::from($v, e));
+            w.into_tv()
+        }};
+    }
+    match (tv, extra.len()) {
+        (TV::D0(v), 1) => arm!(v, 0, 1),
+        (TV::D0(v), 2) => arm!(v, 0, 2),
+        (TV::D1(v), 1) => arm!(v, 1, 1),
+        (TV::D1(v), 2) => arm!(v, 1, 2),
+        (TV::D1(v), 3) => arm!(v, 1, 3),
+        (TV::D2(v), 1) => arm!(v, 2, 1),
+        (TV::D2(v), 2) => arm!(v, 2, 2),
+        (TV::D3(v), 1) => arm!(v, 3, 1),
+        (TV::D3(v), 2) => arm!(v, 3, 2),
+        (TV::D4(v), 1) => arm!(v, 4, 1),
+        (TV::D5(v), 1) => arm!(v, 5, 1),
+        _ => panic!("unsupported TensorExpansion arity"),
+    }
+}
+
+fn stack(shape: &[(&'static str, usize)], n: usize, along: (usize, Dimension), via: &str) -> TV {
+    macro_rules! arm {
+        ($d:literal) => {{
+            let mk = |k: usize| leaf_tensor::<$d>(shape, 1000 * k as u64);
+            let w: Dyn<{ $d + 1 }> = match (n, via) {
+                (1, _) => Box::new(TensorStack::<u64, [Tensor<u64, $d>; 1], $d>::from([mk(0)], along)),
+                (2, "tuple") => Box::new(TensorStack::<u64, (_, _), $d>::from((mk(0), mk(1)), along)),
+                (2, _) => Box::new(TensorStack::<u64, [Tensor<u64, $d>; 2], $d>::from([mk(0), mk(1)], along)),
+                (3, "tuple") => Box::new(TensorStack::<u64, (_, _, _), $d>::from((mk(0), mk(1), mk(2)), along)),
+                (3, _) => Box::new(TensorStack::<u64, [Tensor<u64, $d>; 3], $d>::from([mk(0), mk(1), mk(2)], along)),
+                (4, "tuple") => Box::new(TensorStack::<u64, (_, _, _, _), $d>::from((mk(0), mk(1), mk(2), mk(3)), along)),
+                (4, _) => Box::new(TensorStack::<u64, [Tensor<u64, $d>; 4], $d>::from([mk(0), mk(1), mk(2), mk(3)], along)),
+                _ => panic!("unsupported number of stacked sources"),
+            };
+            w.into_tv()
+        }};
+    }
+    match shape.len() {
+        0 => arm!(0),
+        1 => arm!(1),
+        2 => arm!(2),
+        3 => arm!(3),
+        _ => panic!("unsupported TensorStack dimensionality"),
+    }
+}
+
+fn chain(shapes: &[Vec<(&'static str, usize)>], along: Dimension, via: &str) -> TV {
+    let n = shapes.len();
+    macro_rules! arm {
+        ($d:literal) => {{
+            let mk = |k: usize| leaf_tensor::<$d>(&shapes[k], 1000 * k as u64);
+            let w: Dyn<$d> = match (n, via) {
+                (1, _) => Box::new(TensorChain::<u64, [Tensor<u64, $d>; 1], $d>::from([mk(0)], along)),
+                (2, "tuple") => Box::new(TensorChain::<u64, (_, _), $d>::from((mk(0), mk(1)), along)),
+                (2, _) => Box::new(TensorChain::<u64, [Tensor<u64, $d>; 2], $d>::from([mk(0), mk(1)], along)),
+                (3, "tuple") => Box::new(TensorChain::<u64, (_, _, _), $d>::from((mk(0), mk(1), mk(2)), along)),
+                (3, _) => Box::new(TensorChain::<u64, [Tensor<u64, $d>; 3], $d>::from([mk(0), mk(1), mk(2)], along)),
+                (4, "tuple") => Box::new(TensorChain::<u64, (_, _, _, _), $d>::from((mk(0), mk(1), mk(2), mk(3)), along)),
+                (4, _) => Box::new(TensorChain::<u64, [Tensor<u64, $d>; 4], $d>::from([mk(0), mk(1), mk(2), mk(3)], along)),
+                _ => panic!("unsupported number of chained sources"),
+            };
+            w.into_tv()
+        }};
+    }
+    match shapes[0].len() {
+        1 => arm!(1),
+        2 => arm!(2),
+        3 => arm!(3),
+        _ => panic!("unsupported TensorChain dimensionality"),
+    }
+}
+
+// ---------------------------------------------------------------------------------------------
+// linear algebra entry points (shape logic), record iterators
+// ---------------------------------------------------------------------------------------------
+
+fn linalg(f: &str, rows: usize, cols: usize, singular: bool, via: &str) -> String {
+    use easy_ml::linear_algebra as la;
+    // ones on the diagonal (positive definite when square), or all zeros
+    let data: Vec<f64> = (0..rows * cols)
+        .map(|k| if !singular && k / cols == k % cols { 1.0 } else { 0.0 })
+        .collect();
+    let tensor = via.starts_with("tensor");
+    let m = Matrix::from_flat_row_major((rows, cols), data.clone());
+    let t = Tensor::from([("r", rows), ("c", cols)], data);
+    let sz = |m: &Matrix<f64>| format!("{}x{}", m.rows(), m.columns());
+    let tsz = |t: &Tensor<f64, 2>| format!("{}x{}", t.shape()[0].1, t.shape()[1].1);
+    let r = catch(|| match f {
+        "determinant" => {
+            let d = match via {
+                "method" => m.determinant(),
+                "tensor" => la::determinant_tensor::<f64, _, _>(&t),
+                "tensor_method" => t.determinant(),
+                _ => la::determinant::<f64>(&m),
+            };
+            d.map(|_| "some".to_string())
+        }
+        "inverse" => {
+            if tensor {
+                let i = if via == "tensor_method" { t.inverse() } else { la::inverse_tensor::<f64, _, _>(&t) };
+                i.map(|i| format!("some {}", tsz(&i)))
+            } else {
+                let i = if via == "method" { m.inverse() } else { la::inverse::<f64>(&m) };
+                i.map(|i| format!("some {}", sz(&i)))
+            }
+        }
+        "cholesky" => {
+            if tensor {
+                la::cholesky_decomposition_tensor::<f64, _, _>(&t).map(|l| format!("some {}", tsz(&l)))
+            } else {
+                la::cholesky_decomposition::<f64>(&m).map(|l| format!("some {}", sz(&l)))
+            }
+        }
+        "ldlt" => {
+            if tensor {
+                la::ldlt_decomposition_tensor::<f64, _, _>(&t).map(|d| format!("some {} {}", tsz(&d.l), tsz(&d.d)))
+            } else {
+                la::ldlt_decomposition::<f64>(&m).map(|d| format!("some {} {}", sz(&d.l), sz(&d.d)))
+            }
+        }
+        "qr" => {
+            if tensor {
+                la::qr_decomposition_tensor::<f64, _, _>(&t).map(|d| format!("some {} {}", tsz(&d.q), tsz(&d.r)))
+            } else {
+                la::qr_decomposition::<f64>(&m).map(|d| format!("some {} {}", sz(&d.q), sz(&d.r)))
+            }
+        }
+        _ => Some("bad-op".to_string()),
+    });
+    answer(r, |o| o.unwrap_or_else(|| "none".to_string()))
+}
+
+fn record(kind: &str, shape: &[(&'static str, usize)], lists: &[Vec<&str>]) -> String {
+    let l0: WengertList<f64> = WengertList::new();
+    let l1: WengertList<f64> = WengertList::new();
+    let l2: WengertList<f64> = WengertList::new();
+    let lists_of = [&l0, &l1, &l2];
+    let hist = |h: Option<&WengertList<f64>>| -> String {
+        match h {
+            None => "c".into(),
+            Some(p) => match lists_of.iter().position(|l| std::ptr::eq(*l, p)) {
+                Some(k) => k.to_string(),
+                None => "?".into(),
+            },
+        }
+    };
+    let mk = |h: &str, x: f64| -> Record<f64> {
+        if h == "c" {
+            Record::constant(x)
+        } else {
+            Record::variable(x, lists_of[h.parse::<usize>().unwrap()])
+        }
+    };
+    macro_rules! show_err {
+        ($e:expr) => {
+            match $e {
+                easy_ml::differentiation::iterators::InvalidRecordIteratorError::Shape { requested, length } => {
+                    format!("err shape requested={} length={}", show_shape(&requested.shape()), length)
+                }
+                easy_ml::differentiation::iterators::InvalidRecordIteratorError::Empty => "err empty".to_string(),
+                easy_ml::differentiation::iterators::InvalidRecordIteratorError::InconsistentHistory(h) => {
+                    format!("err inconsistent first={} later={}", hist(h.first), hist(h.later))
+                }
+            }
+        };
+    }
+    let r = catch(|| {
+        if kind == "tensor" {
+            with_d!(shape.len(), D => {
+                let sh = shape_array::<D>(shape);
+                if lists.len() == 1 {
+                    let it = lists[0].iter().enumerate().map(|(k, h)| mk(h, k as f64));
+                    match RecordTensor::from_iter(sh, it) {
+                        Ok(t) => format!("ok history={} shape={}", hist(t.history()), show_shape(&t.shape())),
+                        Err(e) => show_err!(e),
+                    }
+                } else {
+                    let it = (0..lists[0].len()).map(|k| [mk(lists[0][k], k as f64), mk(lists[1][k], k as f64)]);
+                    let rs: [Result<RecordTensor<f64, Tensor<(f64, usize), D>, D>, _>; 2] = RecordTensor::from_iters(sh, it);
+                    rs.into_iter()
+                        .map(|r| match r {
+                            Ok(t) => format!("ok history={} shape={}", hist(t.history()), show_shape(&t.shape())),
+                            Err(e) => show_err!(e),
+                        })
+                        .collect::<Vec<_>>()
+                        .join(" | ")
+                }
+            })
+        } else {
+            let size = (shape[0].1, shape[1].1);
+            let ok = |m: &RecordMatrix<f64, Matrix<(f64, usize)>>| {
+                format!("ok history={} shape=rows:{},columns:{}", hist(m.history()), m.size().0, m.size().1)
+            };
+            if lists.len() == 1 {
+                let it = lists[0].iter().enumerate().map(|(k, h)| mk(h, k as f64));
+                match RecordMatrix::from_iter(size, it) {
+                    Ok(m) => ok(&m),
+                    Err(e) => show_err!(e),
+                }
+            } else {
+                let it = (0..lists[0].len()).map(|k| [mk(lists[0][k], k as f64), mk(lists[1][k], k as f64)]);
+                let rs: [Result<RecordMatrix<f64, Matrix<(f64, usize)>>, _>; 2] = RecordMatrix::from_iters(size, it);
+                rs.into_iter()
+                    .map(|r| match r {
+                        Ok(m) => ok(&m),
+                        Err(e) => show_err!(e),
+                    })
+                    .collect::<Vec<_>>()
+                    .join(" | ")
+            }
+        }
+    });
+    answer(r, |s| s)
+}
+
+// ---------------------------------------------------------------------------------------------
+// generation
+// ---------------------------------------------------------------------------------------------
+
+const MAX: usize = usize::MAX;
+const HALF: usize = 1 << 63;
+
+/// the boundary set of the design: {0, 1, len−1, len, len+1, 2^63−1, 2^63, 2^64−2, 2^64−1}
+pub fn bset(len: usize) -> Vec<usize> {
+    let mut v = vec![0, 1, len.saturating_sub(1), len, len.saturating_add(1), HALF - 1, HALF, MAX - 1, MAX];
+    v.sort();
+    v.dedup();
+    v
+}
+
+/// a smaller ring for products of coordinates
+fn bset_small(len: usize) -> Vec<usize> {
+    let mut v = vec![0, len.saturating_sub(1), len, HALF, MAX];
+    v.sort();
+    v.dedup();
+    v
+}
+
+const NAMES: [&str; 6] = ["a", "b", "c", "d", "e", "f"];
+
+fn named_shape(lens: &[usize]) -> Vec<(&'static str, usize)> {
+    lens.iter().enumerate().map(|(i, l)| (intern(NAMES[i]), *l)).collect()
+}
+
+fn tuples(choices: &[Vec<usize>]) -> Vec<Vec<usize>> {
+    let mut out: Vec<Vec<usize>> = vec![vec![]];
+    for ch in choices {
+        let mut next = vec![];
+        for p in &out {
+            for &c in ch {
+                let mut q = p.clone();
+                q.push(c);
+                next.push(q);
+            }
+        }
+        out = next;
+    }
+    out
+}
+
+const GET_VIAS: [&str; 5] = ["ref", "mut", "access", "access_mut", "view"];
+const MGET_VIAS: [&str; 4] = ["ref", "mut", "view", "view_mut"];
+const RANGE_VIAS: [&str; 4] = ["indexrange", "tuple", "array", "range"];
+
+fn range_via(g: &mut Gen, ranges: &[(usize, usize)]) -> &'static str {
+    let v = *g.rng.pick(&RANGE_VIAS);
+    // `start..start+len` must be representable to build a std Range
+    if v == "range" && ranges.iter().any(|(a, b)| a.checked_add(*b).is_none()) {
+        "indexrange"
+    } else {
+        v
+    }
+}
+
+/// `get` lines over the current tensor view of the given view lengths
+fn gen_gets(g: &mut Gen, lens: &[usize], full: bool, tag: &str) {
+    let tuples_ = if lens.is_empty() {
+        vec![vec![]]
+    } else if full && lens.len() <= 2 {
+        tuples(&lens.iter().map(|&l| bset(l)).collect::<Vec<_>>())
+    } else if full && lens.len() == 3 {
+        tuples(&lens.iter().map(|&l| bset_small(l)).collect::<Vec<_>>())
+    } else {
+        let mut t = vec![];
+        for _ in 0..12 {
+            t.push(
+                lens.iter()
+                    .map(|&l| if g.rng.chance(2, 3) { g.rng.below(l.max(1)) } else { *g.rng.pick(&bset(l)) })
+                    .collect(),
+            );
+        }
+        // every in-range coordinate when small
+        if lens.iter().product::<usize>() <= 12 {
+            t.extend(tuples(&lens.iter().map(|&l| (0..l).collect()).collect::<Vec<_>>()));
+        }
+        t
+    };
+    for idx in tuples_ {
+        let inside = idx.iter().zip(lens.iter()).all(|(i, l)| i < l);
+        g.count(&format!("get.{}.{}", tag, if inside { "in" } else { "out" }));
+        if idx.iter().any(|&i| i >= HALF - 1) {
+            g.count("get.coordinate>=2^63-1");
+        }
+        let via = *g.rng.pick(&GET_VIAS);
+        g.op(format!("get {} via={}", show_usizes(&idx), via));
+    }
+}
+
+fn gen_mgets(g: &mut Gen, rows: usize, cols: usize, tag: &str) {
+    for r in bset(rows) {
+        for c in bset(cols) {
+            let inside = r < rows && c < cols;
+            g.count(&format!("mget.{}.{}", tag, if inside { "in" } else { "out" }));
+            if rows == 0 || cols == 0 {
+                g.count("mget.on_empty_view");
+            }
+            let via = *g.rng.pick(&MGET_VIAS);
+            g.op(format!("mget {} {} via={}", r, c, via));
+        }
+    }
+    for r in 0..rows.min(4) {
+        for c in 0..cols.min(5) {
+            let via = *g.rng.pick(&MGET_VIAS);
+            g.op(format!("mget {} {} via={}", r, c, via));
+        }
+    }
+}
+
+fn gen_try_from(g: &mut Gen) {
+    let lens_pool: Vec<usize> = vec![0, 1, 2, 3, 1 << 32, HALF - 1, HALF, MAX - 1, MAX];
+    for d in 0..=3usize {
+        let all = tuples(&vec![lens_pool.clone(); d]);
+        for lens in all {
+            let shape = named_shape(&lens);
+            // products that are representable
+            let product = lens.iter().try_fold(1usize, |a, &l| a.checked_mul(l));
+            let mut ns: Vec<usize> = vec![0, 1, 6];
+            if let Some(p) = product {
+                if p <= 64 {
+                    ns.extend([p, p + 1, p.saturating_sub(1)]);
+                }
+            }
+            // the wrapped product, were the multiplication to wrap silently
+            let wrapped = lens.iter().fold(1usize, |a, &l| a.wrapping_mul(l));
+            if wrapped <= 64 {
+                ns.push(wrapped);
+            }
+            ns.sort();
+            ns.dedup();
+            for n in ns {
+                if d == 3 && !g.thorough && !g.rng.chance(1, 3) {
+                    continue;
+                }
+                g.count(&format!("try_from.D={}", d));
+                g.count(match product {
+                    None => "try_from.product_overflows",
+                    Some(p) if p == n && lens.iter().all(|&l| l > 0) => "try_from.valid",
+                    Some(_) => "try_from.invalid",
+                });
+                g.op(format!("@ try_from {} {}", show_shape(&shape), n));
+                if product == Some(n) && n > 0 && n <= 64 {
+                    gen_gets(g, &lens, false, "tensor");
+                }
+            }
+            g.op(format!("@ is_valid {}", show_shape(&shape)));
+            g.count("is_valid");
+        }
+    }
+    // duplicate names, with and without a matching element count, in every position
+    for lens in [vec![2, 3], vec![2, 3, 2], vec![1, 1, 1, 1], vec![MAX, 2, 2], vec![2, 0, 2]] {
+        let d = lens.len();
+        for i in 0..d {
+            for j in 0..d {
+                if i == j {
+                    continue;
+                }
+                let mut shape = named_shape(&lens);
+                shape[j].0 = shape[i].0;
+                let p = lens.iter().try_fold(1usize, |a, &l| a.checked_mul(l)).unwrap_or(3).min(64);
+                for n in [p, p + 1] {
+                    g.op(format!("@ try_from {} {}", show_shape(&shape), n));
+                    g.count("try_from.duplicate_names");
+                }
+                g.op(format!("@ is_valid {}", show_shape(&shape)));
+            }
+        }
+    }
+    // higher dimensionalities
+    for lens in [vec![1, 2, 1, 2], vec![2, 1, 2, 1, 2], vec![1, 2, 1, 2, 1, 2], vec![2, 2, HALF, 2], vec![MAX, MAX, MAX, MAX, MAX, MAX]] {
+        let shape = named_shape(&lens);
+        let p = lens.iter().try_fold(1usize, |a, &l| a.checked_mul(l));
+        for n in [0, 4, 8, 9] {
+            g.op(format!("@ try_from {} {}", show_shape(&shape), n));
+            g.count(&format!("try_from.D={}", lens.len()));
+            if p == Some(n) {
+                gen_gets(g, &lens, false, "tensor");
+            }
+        }
+    }
+}
+
+fn gen_access(g: &mut Gen) {
+    for lens in [vec![], vec![3], vec![2, 3], vec![2, 3, 2], vec![1, 2, 2, 3]] {
+        let shape = named_shape(&lens);
+        let d = lens.len();
+        let names: Vec<&str> = shape.iter().map(|s| s.0).collect();
+        let mut lists: Vec<Vec<&str>> = permutations(d).iter().map(|p| p.iter().map(|&i| names[i]).collect()).collect();
+        let good = lists.len();
+        if d >= 1 {
+            for i in 0..d {
+                let mut l = names.clone();
+                l[i] = "zz";
+                lists.push(l);
+                if d >= 2 {
+                    let mut l = names.clone();
+                    l[i] = names[(i + 1) % d];
+                    lists.push(l);
+                    let mut l = names.clone();
+                    l[i] = names[(i + 1) % d];
+                    l[(i + 1) % d] = "zz";
+                    lists.push(l);
+                }
+            }
+            lists.push(vec!["zz"; d]);
+            lists.push(vec![names[0]; d]);
+        }
+        for (k, list) in lists.iter().enumerate() {
+            for op in ["access", "transpose"] {
+                g.op(format!("@ tensor {}", show_shape(&shape)));
+                g.op(format!("{} {}", op, show_names(list)));
+                g.count(&format!("{}.{}", op, if k < good { "permutation" } else { "invalid_names" }));
+                if k < good {
+                    // lengths in the order of the view
+                    let vlens: Vec<usize> = if op == "access" {
+                        list.iter().map(|n| shape.iter().find(|s| s.0 == *n).unwrap().1).collect()
+                    } else {
+                        list.iter().map(|n| shape.iter().find(|s| s.0 == *n).unwrap().1).collect()
+                    };
+                    gen_gets(g, &vlens, d <= 2, op);
+                } else {
+                    // the source is still usable after a failed construction
+                    g.op(format!("get {}", show_usizes(&vec![0; d])));
+                }
+            }
+        }
+    }
+}
+
+fn gen_ranges(g: &mut Gen) {
+    // one dimension, the full boundary product of (start, length), all four all-modes + named
+    for len in [1usize, 2, 4] {
+        let shape = named_shape(&[len]);
+        for start in bset(len) {
+            for l in bset(len) {
+                for kind in ["range", "mask"] {
+                    for mode in ["from_all", "from_all_strict", "from", "from_strict"] {
+                        if !g.thorough && len == 2 && !g.rng.chance(1, 2) {
+                            continue;
+                        }
+                        g.op(format!("@ tensor {}", show_shape(&shape)));
+                        let via = range_via(g, &[(start, l)]);
+                        if mode.starts_with("from_all") {
+                            g.op(format!("{} {} {}:{} via={}", kind, mode, start, l, via));
+                        } else {
+                            g.op(format!("{} {} a:{}:{} via={}", kind, mode, start, l, via));
+                        }
+                        g.count(&format!("{}.{}", kind, mode));
+                        if start.checked_add(l).is_none() {
+                            g.count("range.start+length_overflows");
+                        }
+                        // length of the resulting view if construction succeeds
+                        let end = start.saturating_add(l).min(len);
+                        let clipped = end.saturating_sub(start);
+                        let vlen = if kind == "range" { clipped } else { len - clipped };
+                        let strict_fail = mode.ends_with("strict") && start.checked_add(l).map(|e| e > len).unwrap_or(true);
+                        if vlen > 0 && !strict_fail {
+                            g.count(&format!("{}.constructed", kind));
+                            gen_gets(g, &[vlen], true, kind);
+                        } else {
+                            g.count(&format!("{}.rejected", kind));
+                            g.op("get 0".to_string());
+                        }
+                    }
+                }
+            }
+        }
+    }
+    // two and three dimensions: random boundary picks, `None` entries, named subsets
+    let rounds = if g.thorough { 12000 } else { 600 };
+    for _ in 0..rounds {
+        let d = g.rng.range(2, 3);
+        let lens: Vec<usize> = (0..d).map(|_| g.rng.range(1, 4)).collect();
+        let shape = named_shape(&lens);
+        let kind = if g.rng.chance(1, 2) { "range" } else { "mask" };
+        let mode = *g.rng.pick(&["from_all", "from_all_strict", "from", "from_strict"]);
+        let pick = |g: &mut Gen, len: usize| -> (usize, usize) {
+            if g.rng.chance(1, 2) {
+                // mostly valid
+                let s = g.rng.below(len);
+                (s, g.rng.range(0, len - s + 1))
+            } else {
+                (*g.rng.pick(&bset(len)), *g.rng.pick(&bset(len)))
+            }
+        };
+        g.op(format!("@ tensor {}", show_shape(&shape)));
+        let mut vlens = lens.clone();
+        let mut ok = true;
+        let mut check = |d: usize, r: (usize, usize), vlens: &mut Vec<usize>, ok: &mut bool| {
+            let end = r.0.saturating_add(r.1).min(lens[d]);
+            let clipped = end.saturating_sub(r.0);
+            vlens[d] = if kind == "range" { clipped } else { lens[d] - clipped };
+            if vlens[d] == 0 || (mode.ends_with("strict") && r.0.checked_add(r.1).map(|e| e > lens[d]).unwrap_or(true)) {
+                *ok = false;
+            }
+        };
+        if mode.starts_with("from_all") {
+            let all: Vec<Option<(usize, usize)>> =
+                (0..d).map(|i| if g.rng.chance(1, 4) { None } else { Some(pick(g, lens[i])) }).collect();
+            for (i, o) in all.iter().enumerate() {
+                if let Some(r) = o {
+                    check(i, *r, &mut vlens, &mut ok);
+                }
+            }
+            let flat: Vec<(usize, usize)> = all.iter().flatten().cloned().collect();
+            let via = range_via(g, &flat);
+            g.op(format!("{} {} {} via={}", kind, mode, show_all_ranges(&all), via));
+        } else {
+            // named: a subset in any order, sometimes a duplicate or an unknown name
+            let mut dims: Vec<usize> = (0..d).collect();
+            g.rng.shuffle(&mut dims);
+            dims.truncate(g.rng.range(0, d));
+            let mut named: Vec<(String, (usize, usize))> =
+                dims.iter().map(|&i| (NAMES[i].to_string(), pick(g, lens[i]))).collect();
+            for (n, r) in &named {
+                let i = NAMES.iter().position(|x| x == n).unwrap();
+                check(i, *r, &mut vlens, &mut ok);
+            }
+            match g.rng.below(8) {
+                0 if !named.is_empty() => {
+                    let dup = named[0].clone();
+                    named.push((dup.0, pick(g, 3)));
+                    ok = false;
+                    g.count("range.named.duplicate");
+                }
+                1 => {
+                    named.push(("zz".to_string(), pick(g, 3)));
+                    ok = false;
+                    g.count("range.named.unknown");
+                }
+                2 if !named.is_empty() => {
+                    let dup = named[0].clone();
+                    named.push((dup.0, pick(g, 3)));
+                    named.push(("zz".to_string(), pick(g, 3)));
+                    ok = false;
+                    g.count("range.named.duplicate_and_unknown");
+                }
+                _ => {}
+            }
+            let flat: Vec<(usize, usize)> = named.iter().map(|n| n.1).collect();
+            let via = range_via(g, &flat);
+            let s = if named.is_empty() {
+                "-".to_string()
+            } else {
+                named.iter().map(|(n, r)| format!("{}:{}:{}", n, r.0, r.1)).collect::<Vec<_>>().join(",")
+            };
+            g.op(format!("{} {} {} via={}", kind, mode, s, via));
+        }
+        g.count(&format!("{}.{}", kind, mode));
+        g.count(&format!("{}.D={}", kind, d));
+        if ok {
+            g.count(&format!("{}.constructed", kind));
+            gen_gets(g, &vlens, false, kind);
+            // a second adaptor on top (depth 2)
+            if g.rng.chance(1, 3) {
+                g.op(format!("reverse {}", NAMES[0]));
+                gen_gets(g, &vlens, false, "reverse_of_range");
+            }
+        } else {
+            g.count(&format!("{}.rejected", kind));
+            g.op(format!("get {}", show_usizes(&vec![0; d])));
+        }
+    }
+}
+
+fn gen_adaptors(g: &mut Gen) {
+    // reverse: every subset of dimensions
+    for lens in [vec![1usize], vec![3], vec![2, 3], vec![2, 1, 3]] {
+        let shape = named_shape(&lens);
+        let d = lens.len();
+        for mask in 0..(1u32 << d) {
+            let names: Vec<&str> = (0..d).filter(|i| mask & (1 << i) != 0).map(|i| NAMES[i]).collect();
+            g.op(format!("@ tensor {}", show_shape(&shape)));
+            g.op(format!("reverse {}", show_names(&names)));
+            g.count("reverse");
+            gen_gets(g, &lens, true, "reverse");
+        }
+    }
+    // rename
+    for lens in [vec![2usize], vec![2, 3]] {
+        let shape = named_shape(&lens);
+        g.op(format!("@ tensor {}", show_shape(&shape)));
+        let names: Vec<&str> = (0..lens.len()).map(|i| ["x", "a"][i]).collect();
+        g.op(format!("rename {}", show_names(&names)));
+        g.count("rename");
+        gen_gets(g, &lens, true, "rename");
+    }
+    // index (select): every dimension and every selectable index, pairs for D = 3
+    for lens in [vec![3usize], vec![2, 3], vec![2, 3, 2], vec![1, 2, 2, 2]] {
+        let shape = named_shape(&lens);
+        let d = lens.len();
+        for i in 0..d {
+            for x in 0..lens[i] {
+                g.op(format!("@ tensor {}", show_shape(&shape)));
+                g.op(format!("index {}:{}", NAMES[i], x));
+                g.count("index.I=1");
+                let rest: Vec<usize> = (0..d).filter(|k| *k != i).map(|k| lens[k]).collect();
+                gen_gets(g, &rest, d <= 3, "index");
+            }
+        }
+        if d >= 2 && d <= 3 {
+            for i in 0..d {
+                for j in 0..d {
+                    if i == j {
+                        continue;
+                    }
+                    g.op(format!("@ tensor {}", show_shape(&shape)));
+                    g.op(format!("index {}:{},{}:{}", NAMES[i], lens[i] - 1, NAMES[j], 0));
+                    g.count("index.I=2");
+                    let rest: Vec<usize> = (0..d).filter(|k| *k != i && *k != j).map(|k| lens[k]).collect();
+                    gen_gets(g, &rest, true, "index");
+                }
+            }
+        }
+    }
+    // expansion: every insertion position, two at the same position, unsorted input
+    for lens in [vec![], vec![3usize], vec![2, 3]] {
+        let shape = named_shape(&lens);
+        let d = lens.len();
+        for p in 0..=d {
+            g.op(format!("@ tensor {}", show_shape(&shape)));
+            g.op(format!("expand {}:x", p));
+            g.count("expand.I=1");
+            let mut v = lens.clone();
+            v.insert(p, 1);
+            gen_gets(g, &v, true, "expand");
+            for q in 0..=d {
+                g.op(format!("@ tensor {}", show_shape(&shape)));
+                g.op(format!("expand {}:x,{}:y", p, q));
+                g.count("expand.I=2");
+                // stable sort by position: x before y when p <= q
+                let mut v = lens.clone();
+                if p <= q {
+                    v.insert(q, 1);
+                    v.insert(p, 1);
+                } else {
+                    v.insert(p, 1);
+                    v.insert(q, 1);
+                }
+                gen_gets(g, &v, d <= 1, "expand");
+            }
+        }
+    }
+    // stack
+    for lens in [vec![], vec![2usize], vec![2, 3]] {
+        let shape = named_shape(&lens);
+        let d = lens.len();
+        for n in 1..=4usize {
+            for p in 0..=d {
+                for via in ["array", "tuple"] {
+                    if via == "tuple" && n == 1 {
+                        continue;
+                    }
+                    g.op(format!("@ stack {} {} {}:s via={}", show_shape(&shape), n, p, via));
+                    g.count(&format!("stack.N={}", n));
+                    let mut v = lens.clone();
+                    v.insert(p, n);
+                    gen_gets(g, &v, true, "stack");
+                }
+            }
+        }
+    }
+    // chain: differing lengths along the chained dimension
+    for (shapes, along) in [
+        (vec![vec![2usize]], 0usize),
+        (vec![vec![2], vec![3]], 0),
+        (vec![vec![1], vec![1], vec![2]], 0),
+        (vec![vec![2, 2], vec![2, 1]], 1),
+        (vec![vec![1, 2], vec![3, 2], vec![1, 2]], 0),
+        (vec![vec![1, 2], vec![3, 2], vec![1, 2], vec![2, 2]], 0),
+        (vec![vec![2, 1, 2], vec![2, 3, 2]], 1),
+    ] {
+        for via in ["array", "tuple"] {
+            if via == "tuple" && shapes.len() == 1 {
+                continue;
+            }
+            let s = shapes.iter().map(|l| show_shape(&named_shape(l))).collect::<Vec<_>>().join("|");
+            g.op(format!("@ chain {} {} via={}", s, NAMES[along], via));
+            g.count(&format!("chain.N={}", shapes.len()));
+            let mut v = shapes[0].clone();
+            v[along] = shapes.iter().map(|l| l[along]).sum();
+            gen_gets(g, &v, true, "chain");
+        }
+    }
+    // depth two and three: adaptors over adaptors
+    let rounds = if g.thorough { 6000 } else { 300 };
+    for _ in 0..rounds {
+        let lens: Vec<usize> = vec![g.rng.range(1, 3), g.rng.range(1, 3)];
+        g.op(format!("@ tensor {}", show_shape(&named_shape(&lens))));
+        let mut vlens = lens.clone();
+        let mut names: Vec<String> = vec!["a".into(), "b".into()];
+        let depth = g.rng.range(2, 3);
+        for _ in 0..depth {
+            match g.rng.below(6) {
+                0 => {
+                    let k = g.rng.below(vlens.len());
+                    g.op(format!("reverse {}", names[k]));
+                    g.count("compose.reverse");
+                }
+                1 => {
+                    let k = g.rng.below(vlens.len());
+                    if vlens[k] >= 2 {
+                        let s = g.rng.below(vlens[k] - 1);
+                        g.op(format!("mask from {}:{}:1", names[k], s));
+                        vlens[k] -= 1;
+                        g.count("compose.mask");
+                    }
+                }
+                2 => {
+                    let k = g.rng.below(vlens.len());
+                    let s = g.rng.below(vlens[k]);
+                    g.op(format!("range from {}:{}:{}", names[k], s, MAX));
+                    vlens[k] -= s;
+                    g.count("compose.range_clipped");
+                }
+                3 => {
+                    if vlens.len() == 2 {
+                        g.op(format!("access {},{}", names[1], names[0]));
+                        vlens.swap(0, 1);
+                        names.swap(0, 1);
+                        g.count("compose.access");
+                    }
+                }
+                4 => {
+                    if vlens.len() == 2 {
+                        g.op(format!("transpose {},{}", names[1], names[0]));
+                        vlens.swap(0, 1);
+                        g.count("compose.transpose");
+                    }
+                }
+                _ => {
+                    if vlens.len() == 2 {
+                        g.op("mtensor".to_string());
+                        let (rr, rc) = (g.rng.below(2), g.rng.below(2));
+                        g.op(format!("mreverse {} {}", rr, rc));
+                        g.op(format!("tmatrix {} {}", names[0], names[1]));
+                        g.count("compose.interop_roundtrip");
+                    }
+                }
+            }
+        }
+        gen_gets(g, &vlens, true, "composed");
+    }
+}
+
+fn gen_matrices(g: &mut Gen) {
+    let sizes: Vec<(usize, usize)> = vec![(1, 1), (1, 3), (2, 2), (3, 2), (3, 4)];
+    for &(rows, cols) in &sizes {
+        g.op(format!("@ matrix {} {}", rows, cols));
+        gen_mgets(g, rows, cols, "matrix");
+        g.count("matrix");
+        // the four reversal settings
+        for r in 0..2 {
+            for c in 0..2 {
+                g.op(format!("@ matrix {} {}", rows, cols));
+                g.op(format!("mreverse {} {} via={}", r, c, if r == c { "view" } else { "direct" }));
+                g.count("mreverse");
+                gen_mgets(g, rows, cols, "mreverse");
+            }
+        }
+    }
+    // ranges: the boundary product for rows with a fixed column range, and vice versa
+    for &(rows, cols) in &[(2usize, 3usize), (3, 2)] {
+        for start in bset(rows) {
+            for len in bset(rows) {
+                for (cs, cl) in [(0usize, cols), (1, MAX), (cols, 1)] {
+                    if !g.thorough && cs != 0 && !g.rng.chance(1, 3) {
+                        continue;
+                    }
+                    g.op(format!("@ matrix {} {}", rows, cols));
+                    let via = range_via(g, &[(start, len), (cs, cl)]);
+                    let via = if via == "indexrange" && g.rng.chance(1, 4) { "view" } else { via };
+                    g.op(format!("mrange {}:{} {}:{} via={}", start, len, cs, cl, via));
+                    g.count("mrange");
+                    if start.checked_add(len).is_none() || cs.checked_add(cl).is_none() {
+                        g.count("mrange.start+length_overflows");
+                    }
+                    let vr = start.saturating_add(len).min(rows).saturating_sub(start);
+                    let vc = cs.saturating_add(cl).min(cols).saturating_sub(cs);
+                    gen_mgets(g, vr, vc, "mrange");
+                    // reversed range (possibly empty), and a range of it
+                    if g.rng.chance(1, 3) {
+                        let (rr, rc) = (g.rng.below(2), g.rng.below(2));
+                        g.op(format!("mreverse {} {}", rr, rc));
+                        g.count("mreverse_of_mrange");
+                        gen_mgets(g, vr, vc, "mreverse_of_mrange");
+                        g.op(format!("mrange 0:{} 1:{}", MAX, MAX));
+                        gen_mgets(g, vr, vc.saturating_sub(1), "mrange_of_mreverse_of_mrange");
+                    }
+                }
+            }
+        }
+    }
+    // partitions and their parts
+    for (rows, cols, rp, cp) in [
+        (3usize, 3usize, vec![1usize], vec![2usize]),
+        (3, 4, vec![0, 3], vec![]),
+        (2, 2, vec![], vec![]),
+        (3, 3, vec![2, 3, 3], vec![1]),
+        (4, 3, vec![1, 2], vec![0, 1, 3]),
+    ] {
+        let nparts = (rp.len() + 1) * (cp.len() + 1);
+        for k in 0..nparts {
+            let via = if rp.len() == 1 && cp.len() == 1 { "quadrants" } else { "partition" };
+            g.op(format!("@ partition {} {} {} {} via={}", rows, cols, show_usizes(&rp), show_usizes(&cp), via));
+            g.op(format!("part {}", k));
+            g.count("part");
+            let mut rb = rp.clone();
+            rb.push(rows);
+            let mut cb = cp.clone();
+            cb.push(cols);
+            let (ri, ci) = (k / (cp.len() + 1), k % (cp.len() + 1));
+            let pr = rb[ri] - if ri == 0 { 0 } else { rb[ri - 1] };
+            let pc = cb[ci] - if ci == 0 { 0 } else { cb[ci - 1] };
+            let (pr, pc) = if pr == 0 || pc == 0 { (0, 0) } else { (pr, pc) };
+            gen_mgets(g, pr, pc, "part");
+            if k % 2 == 0 {
+                g.op("mreverse 1 1".to_string());
+                gen_mgets(g, pr, pc, "mreverse_of_part");
+            }
+        }
+    }
+    // scalars and tensor conversion
+    for r in 1..=3usize {
+        for c in 1..=3usize {
+            g.op(format!("@ try_into_scalar {} {}", r, c));
+            g.count("try_into_scalar");
+            for (n1, n2) in [("x", "y"), ("x", "x"), ("row", "column")] {
+                for via in ["into_tensor", "try_from", "try_into"] {
+                    g.op(format!("@ into_tensor {} {} {} {} via={}", r, c, n1, n2, via));
+                    g.count("into_tensor");
+                    if n1 != n2 {
+                        gen_gets(g, &[r, c], false, "into_tensor");
+                    }
+                }
+            }
+        }
+    }
+    // TensorRefMatrix::with_names over full, clipped and empty matrix views
+    for (rs, rl, cs, cl) in [(0usize, 2usize, 0usize, 3usize), (1, MAX, 1, MAX), (2, 1, 0, 3), (0, 2, 3, MAX), (5, 5, 7, 7), (0, 0, 0, 0)] {
+        for (n1, n2, via) in [("x", "y", "with_names"), ("x", "x", "with_names"), ("row", "column", "from")] {
+            g.op("@ matrix 2 3".to_string());
+            g.op(format!("mrange {}:{} {}:{}", rs, rl, cs, cl));
+            g.op(format!("tmatrix {} {} via={}", n1, n2, via));
+            g.count("with_names");
+            let vr = rs.saturating_add(rl).min(2).saturating_sub(rs);
+            let vc = cs.saturating_add(cl).min(3).saturating_sub(cs);
+            if vr > 0 && vc > 0 && n1 != n2 {
+                gen_gets(g, &[vr, vc], true, "tensor_ref_matrix");
+                g.op("mtensor".to_string());
+                gen_mgets(g, vr, vc, "matrix_ref_tensor");
+            } else {
+                g.count("with_names.rejected");
+                gen_mgets(g, vr, vc, "after_rejected_with_names");
+            }
+        }
+    }
+}
+
+fn gen_linalg(g: &mut Gen) {
+    for r in 1..=4usize {
+        for c in 1..=4usize {
+            for f in ["determinant", "inverse", "cholesky", "ldlt", "qr"] {
+                let vias: &[&str] = match f {
+                    "determinant" | "inverse" => &["fn", "method", "tensor", "tensor_method"],
+                    _ => &["fn", "tensor"],
+                };
+                for via in vias {
+                    g.op(format!("@ linalg {} {} {} 0 via={}", f, r, c, via));
+                    g.count(&format!("linalg.{}", f));
+                    if r != c {
+                        g.count("linalg.non_square");
+                    }
+                    if r == 1 || c == 1 {
+                        g.count("linalg.degenerate_1xN_or_Nx1");
+                    }
+                    if f == "inverse" {
+                        g.op(format!("@ linalg {} {} {} 1 via={}", f, r, c, via));
+                    }
+                }
+            }
+        }
+    }
+}
+
+fn gen_records(g: &mut Gen) {
+    let hist_lists: Vec<Vec<&str>> = vec![
+        vec![],
+        vec!["0"],
+        vec!["c"],
+        vec!["0", "0"],
+        vec!["c", "c"],
+        vec!["0", "c"],
+        vec!["c", "0"],
+        vec!["0", "1"],
+        vec!["0", "0", "0", "0"],
+        vec!["0", "1", "2", "0"],
+        vec!["0", "0", "1", "c"],
+        vec!["c", "c", "c", "c", "c", "c"],
+        vec!["1", "1", "1", "1", "1", "1"],
+        vec!["1", "1", "1", "1", "0", "1"],
+    ];
+    let shapes: Vec<Vec<usize>> =
+        vec![vec![], vec![1], vec![2], vec![4], vec![2, 2], vec![1, 2], vec![2, 3], vec![0, 2], vec![MAX, 2], vec![HALF, 2], vec![2, HALF], vec![1 << 32, 1 << 32], vec![2, 1, 2], vec![HALF, 2, 2]];
+    for hl in &hist_lists {
+        let hs = if hl.is_empty() { "-".to_string() } else { hl.join(",") };
+        for lens in &shapes {
+            let shape = named_shape(lens);
+            g.op(format!("@ record tensor {} {}", show_shape(&shape), hs));
+            g.count("record.tensor.from_iter");
+            if lens.iter().try_fold(1usize, |a, &l| a.checked_mul(l)).is_none() {
+                g.count("record.product_overflows");
+            }
+            if lens.len() == 2 {
+                g.op(format!("@ record matrix rows:{},columns:{} {}", lens[0], lens[1], hs));
+                g.count("record.matrix.from_iter");
+            }
+            // from_iters, N = 2: the second stream is a rotated copy
+            let mut h2: Vec<&str> = hl.clone();
+            h2.reverse();
+            let hs2 = if h2.is_empty() { "-".to_string() } else { h2.join(",") };
+            g.op(format!("@ records tensor {} {}|{}", show_shape(&shape), hs, hs2));
+            g.count("record.tensor.from_iters");
+            if lens.len() == 2 {
+                g.op(format!("@ records matrix rows:{},columns:{} {}|{}", lens[0], lens[1], hs, hs2));
+                g.count("record.matrix.from_iters");
+            }
+        }
+    }
+}
+
+pub fn gen(g: &mut Gen) {
+    gen_try_from(g);
+    gen_access(g);
+    gen_ranges(g);
+    gen_adaptors(g);
+    gen_matrices(g);
+    gen_linalg(g);
+    gen_records(g);
 }
